@@ -31,6 +31,8 @@ type simNet struct {
 	lis   map[string]*simListener
 	pcs   map[string]*simPacketConn
 	conns int
+
+	outCap int // send-buffer size of new stream connections; 0 = the client reads infinitely fast
 }
 
 var curNet *simNet
@@ -118,7 +120,7 @@ func (n *simNet) dial(network, address string) (*simConn, error) {
 	if l == nil {
 		return nil, errors.New("dial " + network + " " + address + ": connection refused")
 	}
-	c := &simConn{n: n, id: id, wake: make(chan struct{}), local: l.addr, remote: simAddr{network, "client"}}
+	c := &simConn{n: n, id: id, wake: make(chan struct{}), local: l.addr, remote: simAddr{network, "client"}, outCap: n.outCap}
 	select {
 	case <-l.closed:
 		return nil, errors.New("dial " + network + " " + address + ": connection refused")
@@ -146,6 +148,11 @@ type simConn struct {
 	local    simAddr
 	remote   simAddr
 	ReadN    int // bytes handed to the server
+
+	out       []byte // server-to-client bytes not yet read by the client (only with outCap > 0)
+	outCap    int
+	wdeadline time.Time
+	WroteN    int
 }
 
 func (c *simConn) broadcast() {
@@ -220,7 +227,67 @@ func (c *simConn) Read(p []byte) (int, error) {
 	}
 }
 
-func (c *simConn) Write(p []byte) (int, error) { return len(p), nil }
+// Write is the server-to-client direction. With outCap == 0 (every harness but the HTTP scenario of C12) the
+// client is an infinitely fast reader: the bytes are dropped. With outCap > 0 the connection has a send
+// buffer of that size, drained only by clientRead; a write that finds it full blocks until there is room,
+// the connection is closed, or the write deadline passes (fake clock).
+func (c *simConn) Write(p []byte) (int, error) {
+	if c.outCap == 0 {
+		return len(p), nil
+	}
+	written := 0
+	for {
+		c.mu.Lock()
+		if c.closed {
+			c.mu.Unlock()
+			return written, &net.OpError{Op: "write", Net: c.local.network, Err: errNetClosed}
+		}
+		if !c.wdeadline.IsZero() && !time.Now().Before(c.wdeadline) {
+			c.mu.Unlock()
+			return written, &net.OpError{Op: "write", Net: c.local.network, Err: timeoutError{}}
+		}
+		if room := c.outCap - len(c.out); room > 0 {
+			n := len(p) - written
+			if n > room {
+				n = room
+			}
+			c.out = append(c.out, p[written:written+n]...)
+			written += n
+			c.WroteN += n
+			if written == len(p) {
+				c.broadcast()
+				c.mu.Unlock()
+				return written, nil
+			}
+		}
+		w := c.wake
+		dl := c.wdeadline
+		c.mu.Unlock()
+		if dl.IsZero() {
+			<-w
+		} else {
+			t := time.NewTimer(time.Until(dl))
+			select {
+			case <-w:
+			case <-t.C:
+			}
+			t.Stop()
+		}
+	}
+}
+
+// clientRead takes up to max bytes out of the send buffer (the client reads from its socket).
+func (c *simConn) clientRead(max int) []byte {
+	c.mu.Lock()
+	defer c.mu.Unlock()
+	if max > len(c.out) {
+		max = len(c.out)
+	}
+	b := append([]byte{}, c.out[:max]...)
+	c.out = c.out[max:]
+	c.broadcast()
+	return b
+}
 
 func (c *simConn) Close() error {
 	c.mu.Lock()
@@ -236,6 +303,7 @@ func (c *simConn) Close() error {
 func (c *simConn) LocalAddr() net.Addr  { return c.local }
 func (c *simConn) RemoteAddr() net.Addr { return c.remote }
 func (c *simConn) SetDeadline(t time.Time) error {
+	c.SetWriteDeadline(t)
 	return c.SetReadDeadline(t)
 }
 func (c *simConn) SetReadDeadline(t time.Time) error {
@@ -248,7 +316,16 @@ func (c *simConn) SetReadDeadline(t time.Time) error {
 	c.broadcast()
 	return nil
 }
-func (c *simConn) SetWriteDeadline(time.Time) error { return nil }
+func (c *simConn) SetWriteDeadline(t time.Time) error {
+	c.mu.Lock()
+	defer c.mu.Unlock()
+	if c.closed {
+		return &net.OpError{Op: "set", Net: c.local.network, Err: errNetClosed}
+	}
+	c.wdeadline = t
+	c.broadcast()
+	return nil
+}
 
 // ---- datagram sockets -------------------------------------------------------
 
